@@ -578,7 +578,13 @@ def _scale_doublemad(
         np.nanmean(data_right, axis=axis, keepdims=True) / norm_aad,
         mad_right,
     )
-    return np.where(data < loc, mad_left, mad_right)
+    # A sample equal to the median belongs to neither side: give it the mean of the
+    # two scales so that the estimate is symmetric under reflection of the data
+    return np.where(
+        data < loc,
+        mad_left,
+        np.where(data > loc, mad_right, 0.5 * (mad_left + mad_right)),
+    )
 
 
 def _scale_diffcov(
